@@ -363,7 +363,7 @@ def gen_cases(rng, tier):
         for prog in itertools.product([("S", 204), ("W", "x"), ("W", ""), ("F",), ("X",), ("H", "Content-Length", "1")], repeat=4):
             for (m, v, c) in SMALL_REQ[:3]:
                 out.append(mk(m, v, c, None, "none", False, False, prog))
-        for _ in range(4000):
+        for _ in range(2500):
             out.append(rand_case(rng))
         for _ in range(1500):
             out.append(rand_case(rng, soup=True))
